@@ -225,6 +225,11 @@ udp_pipe_close(void *arg)
 	udp_ep   *ep = p->ep;
 	nni_aio  *aio;
 
+	// A pipe that could not be completed (pipe_create failed) was
+	// never attached to an endpoint.
+	if (ep == NULL) {
+		return;
+	}
 	nni_mtx_lock(&ep->mtx);
 	udp_remove_pipe(p);
 	udp_send_disc(ep, p, DISC_CLOSED);
@@ -243,9 +248,11 @@ udp_pipe_stop(void *arg)
 
 	udp_pipe_close(arg);
 
-	nni_mtx_lock(&ep->mtx);
-	udp_remove_pipe(p);
-	nni_mtx_unlock(&ep->mtx);
+	if (ep != NULL) {
+		nni_mtx_lock(&ep->mtx);
+		udp_remove_pipe(p);
+		nni_mtx_unlock(&ep->mtx);
+	}
 }
 
 static int
